@@ -313,17 +313,28 @@ def r3_check_before_commit(rep, src, M):
             rep.ok('C08.R3', ov.site, 'override delegates', 'delegates to the base validator except for structured fields')
         else:
             rep.fail('C08.R3', ov.site, 'override delegates', 'the override does not delegate ordinary keys to Deb822.validate_input', where=ov.where)
-    # no store in the Deb822 hierarchy bypasses __setitem__ of Deb822: explicit Deb822Dict.__setitem__ calls
+    only_validated_stores(rep, src, 'C08.R3')
+
+
+def only_validated_stores(rep, src, rule):
+    """who-may-call: no store in the Deb822 hierarchy bypasses __setitem__ of Deb822 (explicit Deb822Dict.__setitem__ calls) -- also
+    what the copyright classes rely on for the paragraphs they wrap (C17)"""
+    m = src.mod('deb822')
+    f = m.method('Deb822', '__setitem__')
+    if f is None:
+        raise AnalysisError('deb822:Deb822: no __setitem__ in the class or its bases')
     n = 0
     for fn in m.funcs.values():
         for c in ast.walk(fn.node):
             if isinstance(c, ast.Call) and norm(c.func) == 'Deb822Dict.__setitem__':
                 n += 1
                 if fn.site != f.site:
-                    rep.fail('C08.R3', fn.site, 'raw store ' + norm(c), 'stores a field value without validation', where=fn.where)
+                    rep.fail(rule, fn.site, 'raw store ' + norm(c), 'stores a field value without validation' + (
+                        ': a paragraph built from a mapping (Header(Deb822({...}))) can then hold a text with an empty line, which the dump writes as a paragraph separator'
+                        if rule.startswith('C17') else ''), where=fn.where)
     if n == 0 and f.cls == 'Deb822':
         raise AnalysisError('positive control failed: no Deb822Dict.__setitem__ call found at all')
-    rep.ok('C08.R3', 'deb822', 'only Deb822.__setitem__ performs the raw store', '%d raw store call(s), all inside Deb822.__setitem__' % n)
+    rep.ok(rule, 'deb822', 'only Deb822.__setitem__ performs the raw store', '%d raw store call(s), all inside Deb822.__setitem__' % n)
 
 
 def check(src, rep, tier):
